@@ -26,7 +26,7 @@ PROFILES = {
         "new_doc": 4, "new_sec": 14, "new_prop": 8, "create_section": 4, "create_property": 3,
         "append": 12, "insert": 8, "extend": 8, "remove": 6, "set_parent": 12, "setitem": 8,
         "reorder": 3, "rename": 4, "clone": 6, "merge": 5, "set_link": 4, "set_include": 2, "save": 2, "merge_self": 2, "bulk_create": 1, "finalize": 1,
-        "clean": 2, "new_id": 1,
+        "clean": 2, "new_id": 1, "add_raising_rule": 1,
     }, fault_share=0.35),
 }
 MONITORS = [mon_tree]
